@@ -732,16 +732,27 @@ fn main() {
 	}).reduce(Acc::new, Acc::merge);
 	run!("unrepresentable-code", acc);
 
-	let split = spaces::split_table_cases();
-	let acc = split.par_iter().fold(Acc::new, |mut acc, (label, bytes, total)| {
-		let intent = Intent { table_overflow: *total > 65_535, ..STRICT };
+	let mut split: Vec<(String, Vec<u8>, usize, bool)> = spaces::split_table_cases().into_iter().map(|(l, b, n)| (l, b, n, true)).collect();
+	split.extend(spaces::merged_table_cases());
+	let acc = split.par_iter().fold(Acc::new, |mut acc, (label, bytes, total, strict)| {
+		let intent = Intent { table_overflow: *total > 65_535, strict: *strict, ..STRICT };
 		if *total == 65_535 {
 			acc.ob("table of exactly 65535 entries given to the writer");
 		}
+		// label = split-tables/<kind>/<shape>/<entries-fit | entries-over-65535>
+		let kind = label.split('/').nth(1).unwrap_or("?");
+		let before = (acc.st.get("written:equal"), acc.st.get("clean-error"));
 		vcore::watched(|| replay_text(label, bytes), || judge(ctx, &mut acc, label, bytes, intent, None, false));
+		if *total > 65_535 && acc.st.get("clean-error") > before.1 {
+			acc.ob(&format!("split-tables/{kind}: list of more than 65535 entries refused cleanly"));
+		}
+		if *total <= 65_535 && acc.st.get("written:equal") > before.0 {
+			acc.ob(&format!("split-tables/{kind}: list of {total} entries written and read back equal"));
+		}
 		acc
 	}).reduce(Acc::new, Acc::merge);
 	run!("split-tables", acc);
+	let split_kinds: std::collections::BTreeSet<String> = split.iter().filter_map(|(l, ..)| l.split('/').nth(1).map(str::to_owned)).collect();
 
 	// (d) the queued cases once more, each tree renamed by dukebox with each remapper before it is written
 	let queue = std::mem::take(&mut sink.total.queue);
@@ -809,6 +820,12 @@ fn main() {
 	ctx.floor("full constant pool cases", 11, n_full);
 	ctx.floor("tables of more than 65535 entries refused cleanly", 1, total.obs("clean error where a table has more than 65535 entries"));
 	ctx.floor("split-tables: tables of up to 65535 entries written and read back equal", 2, space_equal.get("split-tables").map(|x| x.1).unwrap_or(0));
+	// every list the reader accumulates over repeated attributes: written whole with exactly 65535 entries, refused beyond
+	ctx.floor("split-tables: kinds of accumulated lists", 22, split_kinds.len() as u64);
+	ctx.floor("split-tables: kinds whose list of exactly 65535 entries was written and read back equal", split_kinds.len() as u64,
+		split_kinds.iter().filter(|k| total.obs(&format!("split-tables/{k}: list of 65535 entries written and read back equal")) > 0).count() as u64);
+	ctx.floor("split-tables: kinds whose list of more than 65535 entries was refused cleanly", split_kinds.len() as u64,
+		split_kinds.iter().filter(|k| total.obs(&format!("split-tables/{k}: list of more than 65535 entries refused cleanly")) > 0).count() as u64);
 	ctx.floor("renamed trees refused cleanly because the constant pool overflows", 1, total.obs("renamed tree refused cleanly: it needs more constant pool entries than the full pool it was read from"));
 	ctx.floor("renamed trees written with a larger, nearly full constant pool", 1, total.obs("renamed tree written with a larger, nearly full constant pool"));
 	ctx.floor("renamed trees whose ldc/ldc_w choices differ from those of the unrenamed tree", 1, total.obs("renaming moved a constant across the ldc/ldc_w boundary"));
@@ -878,7 +895,7 @@ fn main() {
 			"invokeinterface_descriptor_max_params": desc_len,
 			"invokeinterface_descriptor_lists": n_lists,
 			"invokeinterface_return_types": spaces::RETURN_TYPES.len(),
-			"split_line_number_tables": split.iter().map(|(_, _, n)| *n).collect::<Vec<_>>(),
+			"split_tables": split.iter().map(|(l, _, n, _)| format!("{l} ({n})")).collect::<Vec<_>>(),
 			"unrepresentable_code_cases": patched.len(),
 			"full_pool_cases": n_full,
 			"renamed_cases": n_queue,
